@@ -221,6 +221,7 @@ func buildUniverse(M [32]byte) *universe {
 // ---------------------------------------------------------------- worker protocol
 
 type Job struct {
+	Dir        string   `json:"dir"` // scratch directory of this history (created and removed by the parent)
 	Prefix     string   `json:"prefix"`
 	Events     []string `json:"events"`
 	Menu       []string `json:"menu"`
@@ -1033,8 +1034,10 @@ func runJob(job *Job) (res *Result) {
 	res = &Result{}
 	w := &world{job: job, res: res}
 	theWorld = w
-	w.dir = ev.Scratch("c12w")
-	defer os.RemoveAll(w.dir)
+	w.dir = job.Dir
+	if w.dir == "" {
+		hfail("job without scratch directory")
+	}
 	defer func() {
 		if r := recover(); r != nil {
 			switch x := r.(type) {
@@ -1188,6 +1191,10 @@ var workerCPU int64
 
 // runWorker executes one history in a fresh process and classifies its death.
 func runWorker(job *Job) *Result {
+	// the scratch directory belongs to the parent: it disappears even when the worker
+	// dies inside gocoin (os.Exit, fatal error, watchdog kill)
+	job.Dir = ev.Scratch("c12w")
+	defer os.RemoveAll(job.Dir)
 	in, _ := json.Marshal(job)
 	cmd := exec.Command(os.Args[0], "--worker")
 	cmd.Env = append(os.Environ(), "GOMAXPROCS=1")
